@@ -64,7 +64,7 @@ def floors(tier):
             "cls:tag:neg:hastype": 3, "re:cls:tag:neg:cmp.*": 100, "re:ElseIf(@.*)?\\.enter": 500,
             "re:AND(@.*)?\\.enter": 500, "cls:nvars=2": 50, "cls:nvars=3": 50,
             "cls:partial_order:sets": 150, "cls:partial_order:nan": 150, "cls:partial_order:falsy_pred_arg": 150,
-            "cls:block_style_predicate_terms": 200, "cls:block_style_negated_term": 100}
+            "cls:block_style_predicate_terms": 200, "cls:negation_applied_to_the_description": 300, "cls:operand_is_single_solution_subquery": 200, "cls:block_style_negated_term": 100}
 
 
 def _po_case(rng):
@@ -186,6 +186,9 @@ def cases(spec, ctx):
                               world_kw={"np_": (2, 4), "nq": (2, 4)})
         case["k"] = "rand"
         case["wrap"] = [rng.choice(["not", "~"]) for _ in range(rng.randint(2, 3))]
+        case["not_of_description"] = rng.random() < 0.2
+        if rng.random() < 0.25:
+            case["subquery_operands"] = C.with_single_solution_subquery(rng, case["cond"], D.build_world(case["world"]))
         yield case
 
 
@@ -207,7 +210,14 @@ def _max_neg(c, neg=0):
 def _rows(case, world, cond, caching=True):
     cc = dict(case)
     cc["cond"] = cond
-    return multi.evaluate(cc, world, caching=caching)[0], multi.expected(cc, world)
+    exp = multi.expected(cc, world)
+    if case.get("not_of_description") and cond[0] in ("not", "~"):
+        # spelled not_(set_of(selection, conditions...)) and evaluated twice
+        both = multi.evaluate(cc, world, caching=caching, times=2, negate_description=True)
+        if sorted(both[0]) != sorted(both[1]):
+            return both[1], exp         # the second evaluation is the one that is judged then
+        return both[0], exp
+    return multi.evaluate(cc, world, caching=caching)[0], exp
 
 
 def check_case(case, ctx):
@@ -217,8 +227,12 @@ def check_case(case, ctx):
     kinds = case["kinds"]
     prod = [tuple(r) for r in multi.expected({**case, "cond": None}, world)]
     ctx.cls(f"cls:nvars={len(kinds)}")
+    if case.get("not_of_description"):
+        ctx.cls("cls:negation_applied_to_the_description")
     if case.get("k") == "po":
         ctx.cls("cls:partial_order:" + case["mode"])
+    if case.get("subquery_operands"):
+        ctx.cls("cls:operand_is_single_solution_subquery")
     results = []
     nwrap = len(case["wrap"])
     deepest = _wrapped(case["cond"], case["wrap"], nwrap)
